@@ -139,6 +139,15 @@ func detBundle(rng *rand.Rand) *jBundle {
 		b.Files = append(b.Files, &jFile{Path: "bill/ledger/" + v + "/entry.j5s", Pkg: "bill.ledger." + v, Elems: []*jElem{objDecl("Entry", fld("in"+strings.ToUpper(v), tScalar(kString)))}})
 	}
 	f.Imports = append(f.Imports, &jImport{Path: "bill.ledger.v1"}, &jImport{Path: "bill.ledger.v2"})
+	// a hand-written proto file of the package that imports the generated file of another package of the bundle
+	// (a package that nothing else of the bundle refers to)
+	b.Files = append(b.Files, &jFile{Path: "bill/onlyproto/v1/stub.j5s", Pkg: "bill.onlyproto.v1", Elems: []*jElem{objDecl("Stub", fld("label", tScalar(kString)))}})
+	b.Protos[dir+"/handwritten.proto"] = "syntax = \"proto3\";\n\npackage " + f.Pkg + ";\n\nimport \"bill/onlyproto/v1/stub.j5s.proto\";\n\n// refers to a type compiled from j5s in another package\nmessage HandWritten {\n  bill.onlyproto.v1.Stub stub = 1;\n}\n"
+	// two files of the package, each using the same-named type of a different package
+	for _, v := range []string{"v1", "v2"} {
+		b.Files = append(b.Files, &jFile{Path: dir + "/ledger" + v + ".j5s", Pkg: f.Pkg, Imports: []*jImport{{Path: "bill/ledger/" + v + "/entry.j5s.proto", File: true}},
+			Elems: []*jElem{objDecl("UsesLedger"+strings.ToUpper(v), fld("entry", tRef(kObject, "bill.ledger."+v+".Entry", "bill.ledger."+v+".Entry")))}})
+	}
 	f.Elems = append(f.Elems, objDecl("LedgerUser", fld("entry", tRef(kObject, "ledger.Entry", "bill.ledger.v2.Entry")), fld("entries", tArr(tRef(kObject, "ledger.Entry", "bill.ledger.v2.Entry")))))
 	// a stale copy of a generated file that was committed beside its source: the file source lists it, the
 	// compiler is expected to keep ignoring it whatever the listing order
@@ -199,6 +208,7 @@ func c14Check(c *rt.C, b *jBundle, id string) map[string]string {
 		}},
 	}
 	var base map[string]c14Digest
+	var baseErr error
 	for i := 0; i < 3; i++ {
 		configs = append(configs, config{fmt.Sprintf("repeat-%d", i+2), configs[1].run})
 	}
@@ -218,10 +228,18 @@ func c14Check(c *rt.C, b *jBundle, id string) map[string]string {
 		if err != nil {
 			if base != nil {
 				c.Violate("configuration-changes-outcome/"+cfg.name, fmt.Sprintf("bundle %s compiles in the baseline configuration but fails in configuration %q: %v", id, cfg.name, err), srcDetail(src))
-			} else {
+				return nil
+			}
+			if baseErr == nil {
 				c.Event("bundle_does_not_compile")
 				c.Feature("c14:compile-failed/" + id + "/" + errSig(err))
+				baseErr = err
 			}
+			// a bundle that is rejected is rejected in every configuration
+			continue
+		}
+		if baseErr != nil {
+			c.Violate("configuration-changes-outcome/"+cfg.name+"-compiles", fmt.Sprintf("bundle %s fails in the baseline configuration (%v) but compiles in configuration %q", id, baseErr, cfg.name), srcDetail(src))
 			return nil
 		}
 		c.Event("configurations_compiled")
